@@ -34,6 +34,19 @@ WHAT = {
     "c19-stop": "stop() left a send outstanding, failed it with a non-cancellation error, or something was transmitted in/after stop()",
 }
 CORPUS = os.path.join(core.VERIF, "corpus", "producer")
+TRUSTED = [
+    "the Producer is modelled against the client INTERFACE (ClientIface, harness/lib/client_iface.md): the composition Producer x KafkaClient is by contract, checked on the code by the full-stack stage, not one Lean theorem",
+    "fake client of the scripted environment (harness/lib/producer_fakeclient.py) and its reproduction of the real client's cancel outcomes",
+    "Twisted Deferred/inlineCallbacks/DeferredList/LoopingCall semantics as folded into the model's handlers; timers are abstract (set/fire), 'timers fire when due' is assumed",
+    "snapshots of the real Producer's private bookkeeping fields (_batch_reqs, _waitingMsgCount, ...) read after every event",
+]
+ASSUMPTIONS = {
+    "C01": ["the client names only payloads of the request in its result, each at most once (C07); 'fires when the batch resolves' additionally assumes the client accounts for every payload (C07 accounting)",
+            "no re-entrant calls into the Producer from callbacks of the send Deferreds"],
+    "C09": ["as C01; send ids stand for submission order", "one-batch-in-flight is checked through 'every send of earlier requests has fired', which assumes C07 accounting"],
+    "C19": ["as C01; time bounds are in model time (reactor latency not modelled)",
+            "the client's answer to a cancel during stop() is one of ClientIface's cancel outcomes"],
+}
 
 
 def trace_lines(real, monitors):
@@ -266,6 +279,16 @@ def scripted(ctx, res, pid, n_quick, n_thorough):
         t = Tally()
         random_batch(pid, ctx.rng.randrange(1 << 30), n_quick, t)
         merge(res, t)
+
+
+def run(ctx, res, pid):
+    scripted(ctx, res, pid, n_quick=2500, n_thorough=64000)
+    try:
+        from harness.lib import producer_fullstack as FS
+    except ImportError:
+        res.notes.append("full-stack stage not available")
+    else:
+        FS.stage(ctx, res, pid)
 
 
 def search(ctx, res, broken, pid):
